@@ -264,6 +264,11 @@ pub fn my_err(s: &str) -> MyErr {
     MyErr(s.to_string())
 }
 
+/// an error constructor whose RETURN type is a type parameter (inferred from `parse_err_ty`)
+pub fn my_err_generic<E: From<MyErr>>(s: &str) -> E {
+    E::from(my_err(s))
+}
+
 pub fn my_err_calls() -> u64 {
     MY_ERR_CALLS.with(|c| c.get())
 }
